@@ -101,6 +101,12 @@ def _gen_function(prog, cfg, short, keep):
         jobs.append({"name": short + ":subset:executor", "kind": "subset", "status": "failed", "func": short,
                      "detail": "executor error: %s\n%s" % (ex, traceback.format_exc()[-1500:])})
         return jobs, meta
+    rx = cfg.get("ensures_filter") if isinstance(cfg, dict) else None
+    if rx:
+        # a property that claims one facet (e.g. ownership clauses) of functions whose full contracts are discharged
+        # by another property's check: only the matching postconditions (plus every frame / precondition obligation)
+        import re as _re
+        obs = [ob for ob in obs if ob.kind not in ("ensures", "safety", "cover") or (ob.kind == "ensures" and _re.search(rx, ob.name))]
     if not obs:
         jobs.append({"name": short + ":vacuity:no-obligations", "kind": "vacuity", "status": "failed", "func": short,
                      "detail": "function is listed under contract but generated zero obligations (contract block missing or not bound)"})
